@@ -25,3 +25,26 @@ package flaghelper
 //@   ensures C12_first_occurrence_replaces_the_default: err == nil && old(v.defaulted) ==> !v.defaulted && cell(v.s, "Slice") == rec_unsignedIntegralSlice_res0[old(rec_unsignedIntegralSlice_cnt)]
 //@   ensures C12_later_occurrences_accumulate: err == nil && !old(v.defaulted) ==> !v.defaulted
 //@        && len(cell(v.s, "Slice")) == len(old(cell(v.s, "Slice"))) + len(rec_unsignedIntegralSlice_res0[old(rec_unsignedIntegralSlice_cnt)])
+
+// C15: the printed form of an integral slice flag is what the parser reads back: elements are printed with the
+// signedness of their type
+//@ extern func strconv.FormatUint(i, base) (s)
+//@   pure
+//@ extern func strconv.FormatInt(i, base) (s)
+//@   pure
+//@ func flaghelper.(*UnsignedIntegralSliceFlag).String(v) (s)
+//@   props C15 C12
+//@   flag only_at
+//@   flag noframe
+//@   flag vacuity off
+//@   modifies *
+//@   at call strconv.FormatUint(:
+//@     assert C15_unsigned_elements_are_printed_unsigned_in_base_10: arg1 == 10
+//@ func flaghelper.(*SignedIntegralSliceFlag).String(v) (s)
+//@   props C15 C12
+//@   flag only_at
+//@   flag noframe
+//@   flag vacuity off
+//@   modifies *
+//@   at call strconv.FormatInt(:
+//@     assert C15_signed_elements_are_printed_signed_in_base_10: arg1 == 10
